@@ -1305,14 +1305,13 @@ rrul_fill_mly(echs_instant_t *restrict tgt, size_t nti, rrulsp_t rr)
 		 * repeat after at most 12 steps so if none of them is in
 		 * mon by then none will ever be */
 		for (size_t i = 0U; !bui31_has_bit_p(rr->mon, m); i++) {
-			if (UNLIKELY(i >= 12U)) {
+			if (UNLIKELY(i >= 12U || y > MAX_YEAR)) {
 				goto fin;
 			}
-			if ((m += rr->inter) > 12) {
-				m--;
-				y += m / 12;
-				m %= 12;
-				m++;
+			y += rr->inter / 12U;
+			if ((m += rr->inter % 12U) > 12) {
+				m -= 12;
+				y++;
 			}
 		}
 	}
@@ -1321,13 +1320,13 @@ rrul_fill_mly(echs_instant_t *restrict tgt, size_t nti, rrulsp_t rr)
 	for (res = 0UL, tries = MLY_TRIES; res < nti && --tries;
 	     ({
 		     do {
-			     if ((m += rr->inter) > 12) {
-				     m--;
-				     y += m / 12;
-				     m %= 12;
-				     m++;
+			     y += rr->inter / 12U;
+			     if ((m += rr->inter % 12U) > 12) {
+				     m -= 12;
+				     y++;
 			     }
-		     } while (bui31_has_bits_p(rr->mon) &&
+		     } while (y <= MAX_YEAR &&
+			      bui31_has_bits_p(rr->mon) &&
 			      !bui31_has_bit_p(rr->mon, m));
 	     })) {
 		bitint383_t cand[3U] = {0U};
